@@ -1,4 +1,4 @@
-HOOK_COMMITS = []
+HOOK_COMMITS = ["8453496", "fa51c13", "887955e", "5499c55", "db47ff6", "b228aed", "355b9e4"]
 NOT_APPLICABLE = {}
 META = {
     "C20": dict(
